@@ -437,7 +437,7 @@ func (b *Bed) URL(path string) string {
 	if b.Cfg.TLS != nil {
 		scheme = "rtsps"
 	}
-	return fmt.Sprintf("%s://%s:%d/%s", scheme, b.IP, b.Port, path)
+	return fmt.Sprintf("%s://%s/%s", scheme, net.JoinHostPort(b.IP, strconv.Itoa(b.Port)), path)
 }
 
 // CurrentSession returns the most recently opened session if its close has not been notified.
